@@ -99,7 +99,7 @@ func RunRounding() {
 		checkNumber(r, err, math.Ceil(x), "ceiling")
 	case 2:
 		// recorded finding: ties below zero round away from zero (pinned by TestFunctionRound)
-		nd.Known("C06.round.negative-tie", nd.And(x < 0, x-math.Floor(x) == 0.5))
+		nd.Known("C06.round.negative-tie", nd.And(x < 0, spec.IsTie(x)))
 		r, err := exec2("round($x)", x, 0)
 		nd.Reach("round")
 		checkNumber(r, err, spec.Round(x), "round")
@@ -129,6 +129,15 @@ func RunSum() {
 	checkNumber(r, err, want, "sum")
 	r, err = xsel.Exec(doc, exprs["count(/r/*)"])
 	checkNumber(r, err, float64(n), "count")
+}
+
+// RunRoundLemma: the two formulations of XPath round() in the reference model
+// agree on every double (used by C07's substring oracle).
+func RunRoundLemma() {
+	x := nd.F64()
+	a, b := spec.Round(x), spec.RoundForCompare(x)
+	nd.Reach("round-lemma")
+	nd.Assert(nd.Or(a == b, nd.And(a != a, b != b)), "round-lemma.equivalent")
 }
 
 // RunVacuity must produce a violation: guards against an engine or harness
